@@ -15,6 +15,7 @@ pub fn prop() -> HistProp {
     gc.gen_geom_pct = 50;
     gc.tiny_free_pct = 30;
     gc.max_ops = 30;
+    gc.populate_pct = 10;
     HistProp {
         id: "C11",
         level: "exploration",
